@@ -479,12 +479,12 @@ pub fn run(ctx: &RunCtx) -> PropResult {
     let mut report = Report::default();
     let sample_b = |c: &BloomCase| json!({"elements": c.elements, "hashers": c.hashers, "max_bits": c.max_bits, "fpr_millis": c.fpr_millis, "added": c.a.len(), "other": c.b.len(), "probes": c.probes.len(), "file_offset": c.file_offset, "range_keys": c.ka.len()});
     run_replays::<BloomCase, _>(ctx, "bloom", &ctx.verif_dir.join("replays").join("C10"), run_bloom, &mut report);
-    run_generated(ctx, "bloom", ctx.tier.pick(6000, 200_000), bloom_strategy, run_bloom, &sample_b, &mut report);
+    run_generated(ctx, "bloom", ctx.tier.pick(60_000, 400_000), bloom_strategy, run_bloom, &sample_b, &mut report);
     let sample_h = |c: &HierCase| -> Value { json!({"group": c.group, "level": c.level, "bloom_bits": c.bloom_bits, "ops": c.ops.iter().map(|o| match o { HOp::Push { keys, with_bloom, slow } => format!("push({} keys,bloom={},slow={})", keys.len(), with_bloom, slow), other => format!("{:?}", other) }).collect::<Vec<_>>() }) };
     run_replays::<HierCase, _>(ctx, "hier", &ctx.verif_dir.join("replays").join("C10"), run_hier, &mut report);
-    run_generated(ctx, "hier", ctx.tier.pick(4000, 120_000), hier_strategy, run_hier, &sample_h, &mut report);
+    run_generated(ctx, "hier", ctx.tier.pick(30_000, 200_000), hier_strategy, run_hier, &sample_h, &mut report);
     let p = profile();
-    run_profile(ctx, &p, ctx.tier.pick(2000, 40_000), &mut report);
+    run_profile(ctx, &p, ctx.tier.pick(3000, 40_000), &mut report);
     PropResult {
         report,
         level: "exploration",
